@@ -7,10 +7,11 @@
                                                buffer size read from the current source, Gen/RecfmParams.v)
      estruct.RECFM_V / RECFM_VB               (Model/Recfm.v: V_record_iter, VB_record_iter; used() only stores a number)
    The schema walk (DependsOnArraySchema: counter fetched through the anchors) and NDNav.index are those of
-   Model/Layout.v; nothing of them is re-modelled here. *)
+   Model/Layout.v; nothing of them is re-modelled here.  from_schema reads its rules (default start, the start handed
+   to walk, the instance check of the DependsOnArraySchema case) from Gen/LayoutParams.v like Model/Layout.v does. *)
 From Coq Require Import ZArith NArith List Bool Arith.
 Import ListNotations.
-Require Import SR.Base.Res SR.Gen.RecfmParams SR.Model.Recfm SR.Spec.Layout SR.Model.Layout.
+Require Import SR.Base.Res SR.Gen.RecfmParams SR.Model.Recfm SR.Spec.Layout SR.Model.LayoutRule SR.Gen.LayoutParams SR.Model.Layout.
 
 (* does the schema hold a DependsOnArraySchema / an empty oneOf anywhere (every node is walked) *)
 Fixpoint js_has_odo (s : js) : bool :=
@@ -35,9 +36,14 @@ Variable dcount : list A -> nat.      (* int(unpacker.value(counter schema, byte
    starts with: if not hasattr(self, 'instance'): raise ValueError.  The only other failure of a walk is max() of an
    empty oneOf, also ValueError, so: ValueError as soon as the schema holds an ODO array, else the plain walk
    (which never looks at the record). *)
+(* Gen/LayoutParams.v: odo_requires_instance says that check is there (without it the case goes on to self.instance,
+   an AttributeError); from_schema(self, start=<from_schema_default>) walks from <from_schema_start> *)
 Definition from_schema (s : js) : res loc :=
-  if js_has_odo s then Err ValueError
-  else match SR.Model.Layout.walk dcount [] s 0 [] with Ok (l, _) => Ok l | Err e => Err e end.
+  if js_has_odo s then Err (if odo_requires_instance then ValueError else AttributeError)
+  else match SR.Model.Layout.walk dcount [] s (eval (env_start from_schema_default) from_schema_start) [] with
+       | Ok (l, _) => Ok l
+       | Err e => Err e
+       end.
 
 (* set_schema: if wb.lrecl: self.lrecl = wb.lrecl  else: self.lrecl = from_schema().end
    (None and 0 are both falsy) *)
